@@ -80,6 +80,7 @@ func ProfileFor(prop string) *Profile {
 		w["put"], w["update"], w["delete"], w["get"] = 3, 2, 1.5, 2
 		w["query"], w["scan"], w["batchw"], w["batchg"], w["transact"] = 1, 1, 2, 1, 0.7
 		w["describe"], w["putcond"], w["updcond"] = 0.5, 0.3, 0.3
+		w["drop"], w["create"], w["delcond"] = 0.3, 0.4, 0.3
 		w["toggle"] = 3
 		p.FaultFree = 0
 	case "C17":
